@@ -346,7 +346,9 @@ func VerifC08_PatternIsolation() {
 	// pairs with inline flags / alternations, and pairs in which the text of one pattern is itself matched by the
 	// other (each pattern must keep its own effect whatever else is in the list, in either order)
 	sets := [][]string{{"(?i)a", "b"}, {"b", "(?i)a"}, {"a|", "b"}, {"(?s)a", "B"}, {"a$", "^b"},
-		{"a", "[ab]"}, {"[ab]", "a"}, {"a", "a*b"}, {"a*b", "a"}, {"b", "ab|B"}, {"a", "a"}}
+		{"a", "[ab]"}, {"[ab]", "a"}, {"a", "a*b"}, {"a*b", "a"}, {"b", "ab|B"}, {"a", "a"},
+		// a blank pattern in a list is skipped, nothing else
+		{"", "a"}, {"b", "", "a"}, {" ", "b"}}
 	invalid := [][]string{{"(a", "b)"}, {"(", ")"}, {"a", "b)"}, {"[a", "b]"}, {"a", "a["}, {"a[", "a"}}
 	ctx := context.Background()
 	if verif.Bool("invalidSet") {
